@@ -3,6 +3,7 @@ package driver
 import (
 	"bytes"
 	"context"
+	"encoding/json"
 	"fmt"
 	"io"
 	"math/rand"
@@ -21,6 +22,8 @@ type WireCase struct {
 	RespType     string `json:"respType"`     // response type the handler returns ("" = seeded choice among implementers)
 	InjectStatus int    `json:"injectStatus"` // > 0: the HTTP client answers with this status and an empty body, the server is not involved
 	DefaultCode  int    `json:"defaultCode"`  // > 0: the handler returns the default response with this status code
+	// Fill: the request value, spelled out (an abstract value of the <Op>Params type); no random fill, no domain fix.
+	Fill json.RawMessage `json:"fill,omitempty"`
 }
 
 var pathStrings = []string{"abc", "a b", "x&y=z", "50%", "q?r#s", "é☃", "+plus+", "a;b,c", "~tilde", "0", "-", "..x", "colon:semi", "@at", "$d", "(p)", "*star", "'q'", "%2F", "a%20b"}
@@ -200,8 +203,20 @@ func runWireCase(reg Registry, rec *Recorder, ops []OpInfo, client reflect.Value
 	paramsT := method.Type().In(1)
 	params := reflect.New(paramsT).Elem()
 	r := newRng(wc.Seed)
-	RandomFill(params, r, 0)
-	fixDomain(params, "", r)
+	if len(wc.Fill) > 0 && string(wc.Fill) != "null" {
+		var av AVal
+		if err := json.Unmarshal(wc.Fill, &av); err != nil {
+			rec.Emit(Event{"ev": "DriverError", "err": "bad fill: " + err.Error()})
+			return
+		}
+		if err := Build(params, av); err != nil {
+			rec.Emit(Event{"ev": "DriverError", "err": "cannot build " + wc.Op + ": " + err.Error()})
+			return
+		}
+	} else {
+		RandomFill(params, r, 0)
+		fixDomain(params, "", r)
+	}
 	// a raw body: make it re-readable so that it can be projected without being consumed
 	if f := params.FieldByName("Body"); f.IsValid() && f.Kind() == reflect.Interface {
 		bs := []byte(queryStrings[r.Intn(len(queryStrings))] + "\x00\xffraw")
